@@ -115,18 +115,20 @@ def c01(tier, seed):
     c = Check("C01", tier, seed)
     info = srcparse.parse_layout_src(vlib.REPO)
     c.cov["source_facts"] = info
+    if info.get("unknown_fields"):
+        c.assumptions.append("DESIGN WARNING: storage struct fields the layout model does not know (%s) are modelled as zero-sized, align-1 markers" % ", ".join(info["unknown_fields"]))
     if not (info["even_repr_c"] and info["odd_repr_c"] and info["transparent"]):
         c.assumptions.append("DESIGN WARNING: a repr attribute is missing in src/lib.rs; the model assumes declaration order, observed layouts still decide")
     c.mc("MC_Layout", "MC_Layout_q" if tier == "quick" else "MC_Layout_t", workers=8, timeout=1500)
     binary = build_aux()
     run_aux(c, binary, "layout", tier, "layout")
-    if tier != "quick" and info["even"] == ["U", "U", "PhantomData"] and info["odd"] == ["U", "U", "T"] and info["even_repr_c"] and info["odd_repr_c"]:
+    if tier != "quick" and info["even"] == ["U", "U", "PhantomData"] and info["odd"] == ["U", "U", "T"] and info["even_repr_c"] and info["odd_repr_c"] and not info.get("unknown_fields"):
         lattice = [(s, a) for a in (1, 2, 4, 8, 16, 32, 64) for s in (0, 1, 2, 3, 4, 5, 6, 8, 12, 16, 24, 32, 48, 64, 96, 128) if s % a == 0]
         apalache_induction(c, lattice)
         c.assumptions.append("unbounded N: the layout invariant is inductive over the digit recursion for each of the %d element layouts (Apalache, base case + step)" % len(lattice))
     c.cov["exhaustive"] = True
     c.cov["bounds"] = {"model": "every N < 2^%d x 64 element layouts (sizes 0..128, alignments 1..64)" % (7 if tier == "quick" else 11),
-                       "compiler records": "30 element types x (N in 0..=64 + boundaries%s) + every larger named typenum length up to 2^62 (N*size < 2^59; all for zero-sized types)" % ("" if tier == "quick" else ", all of 0..=1024")}
+                       "compiler records": "30 element types x (N in 0..=64 + boundaries%s) + every larger named typenum length up to 2^62 (N*size < 2^54; all for zero-sized types)" % ("" if tier == "quick" else ", all of 0..=1024")}
     c.assumptions += ["rustc's layout algorithm is observed (size_of/align_of and real element addresses), not re-proved",
                       "lengths beyond TLC's 32-bit integers travel as base-1000 limbs and are multiplied digit-wise in the specification"]
     return c.finish()
@@ -204,6 +206,10 @@ def c13(tier, seed):
                 etys = [etys[(sum(a) + 2 * sum(b)) % 5], "f64"]
             for e in etys:
                 lines.append("%s %s %s" % (e, fmt(a), fmt(b)))
+    # zero-sized elements whose own Hash feeds something (inner arrays of length 0)
+    for n in (0, 1, 2, 3, 5):
+        z = [0] * n
+        lines.append("nested0 %s %s" % (fmt(z), fmt(z)))
     for n in (5, 16, 97):
         for _ in range(6 if tier == "quick" else 60):
             a = [rng.choice([0, 1, 2, 3]) for _ in range(n)]
